@@ -18,7 +18,7 @@ func init() {
 		ID: "C06", Run: runC06, QuickRuns: 100000, ThoroughRuns: 4000000,
 		Rule:       "Each run: 1..3 header parameter sets (any flags/seq id, allow-listed protocol ids, 0..many int/string entries, the ACL-token key, empty and 64KiB-scale strings, every padding residue, header sizes biased to just under/at/over the 64KiB limit) are encoded with Encode into a bufiox.DefaultWriter over a simulated Sink that already holds a random amount of unflushed data (the 14-byte meta region is allocated before and its size field written after 0..many buffer growths), the caller stores the total length and appends a payload; also EncodeToBytes and a bytes-backed writer. The frame is parsed by an independent layout parser, then decoded through a fragmenting Source with Decode and with DecodeFromBytes, and the payload is read back.",
 		Components: realComponents,
-		Probes:     []string{"header_exactly_65536", "header_over_limit_rejected", "header_just_under_limit", "acl_token", "empty_maps", "padding_residue_0", "padding_residue_1", "padding_residue_2", "padding_residue_3", "meta_before_growth", "encode_failed"},
+		Probes:     []string{"header_exactly_65536", "header_over_limit_rejected", "header_just_under_limit", "acl_token", "empty_maps", "padding_residue_0", "padding_residue_1", "padding_residue_2", "padding_residue_3", "meta_before_growth", "encode_failed", "pipelined_connection"},
 	})
 }
 
@@ -181,10 +181,101 @@ func checkDecoded(c *sim.Ctx, site string, dp ttheader.DecodeParam, p *ref.TTPar
 	}
 }
 
+// c06Pipeline: a connection. 2..8 frames with payloads are encoded back to back into one
+// buffered writer (flush points anywhere between frames), travel through one Source and are
+// decoded from one buffered reader with Release between messages: every header and payload
+// must be delimited exactly, or everything after it is out of step.
+func c06Pipeline(c *sim.Ctx, cfg, st *sim.Stream) {
+	ctx := context.Background()
+	n := 2 + st.Choose(7)
+	sink := sim.NewSink(c, "conn")
+	w := bufiox.NewDefaultWriter(sink)
+	type sent struct {
+		p       *ref.TTParams
+		payload []byte
+		hdrLen  int
+	}
+	var frames []sent
+	for k := 0; k < n; k++ {
+		c.Ops++
+		p := genTTParams(c, st)
+		if headerInfoSize(p) > 20000 {
+			p.Int, p.Str = nil, nil // keep connections small; big headers are covered frame by frame
+		}
+		ep := ttheader.EncodeParam{Flags: ttheader.HeaderFlags(p.Flags), SeqID: p.Seq, ProtocolID: ttheader.ProtocolID(p.Proto), IntInfo: p.Int, StrInfo: p.Str}
+		payload := sim.KeyedBytes(uint64(c.Index)*977+uint64(k), 0, []int{0, 1, 17, 300, 4096, 9000}[st.Pick(2, 2, 3, 3, 1, 1)])
+		before := w.WrittenLen()
+		var tl []byte
+		var err error
+		c.GuardNoOOM("Encode", func() { tl, err = ttheader.Encode(ctx, ep, w) })
+		if err != nil {
+			// the property allows Encode to fail; whatever it wrote so far makes the rest of the
+			// connection meaningless, so the run ends here without a verdict
+			c.Count("probe.encode_failed")
+			c.AbortRun("encode_failed_on_connection")
+		}
+		hdrLen := w.WrittenLen() - before
+		binary.BigEndian.PutUint32(tl, uint32(hdrLen-4+len(payload)))
+		if _, err := w.WriteBinary(payload); err != nil {
+			c.Fail("WRITE_ERROR", "WriteBinary", sim.F{}, "%v", err)
+		}
+		frames = append(frames, sent{p, payload, hdrLen})
+		if st.Chance(1, 3) {
+			if err := w.Flush(); err != nil {
+				c.Fail("WRITE_ERROR", "Flush", sim.F{}, "%v", err)
+			}
+		}
+	}
+	if err := w.Flush(); err != nil {
+		c.Fail("WRITE_ERROR", "Flush", sim.F{}, "%v", err)
+	}
+	stream := sink.Got
+	scfg := sim.RandomSourceCfg(cfg, len(stream))
+	src := sim.NewSource(c, "conn", stream, scfg)
+	dr := bufiox.NewDefaultReader(src)
+	c.Tracef("pipeline of %d frames, %d bytes; %s", n, len(stream), scfg.String())
+	c.Count("probe.pipelined_connection")
+	for k, f := range frames {
+		c.Ops++
+		src.BeginCall(f.hdrLen)
+		before := dr.ReadLen()
+		var dp ttheader.DecodeParam
+		var err error
+		c.GuardNoOOM("Decode/DefaultReader", func() { dp, err = ttheader.Decode(ctx, dr) })
+		site := "Decode/DefaultReader"
+		if err != nil {
+			c.Fail("FRAME_ROUNDTRIP", site, sim.F{"field": "rejected", "pipeline": true, "frame": k}, "frame %d of %d on the connection (%s) was rejected: %v", k, n, describeParams(f.p), err)
+		}
+		checkDecoded(c, site, dp, f.p, f.hdrLen, len(f.payload))
+		if d := dr.ReadLen() - before; d != f.hdrLen {
+			c.Fail("FRAME_LEN", site, sim.F{"which": "consumed", "pipeline": true}, "Decode consumed %d bytes, the header has %d", d, f.hdrLen)
+		}
+		var pl []byte
+		src.BeginCall(len(f.payload))
+		c.GuardNoOOM("Next/DefaultReader", func() { pl, err = dr.Next(dp.PayloadLen) })
+		if err != nil || firstDiff(pl, f.payload) >= 0 {
+			c.Fail("FRAME_LEN", site, sim.F{"which": "payload bytes", "pipeline": true}, "the payload of frame %d delimited by Decode is not the payload that was sent (err %v)", k, err)
+		}
+		c.Abs(0x420000 | uint32(k)<<8 | sizeBucket(f.hdrLen))
+		if st.Chance(2, 3) {
+			c.GuardNoOOM("Release/DefaultReader", func() { dr.Release(nil) })
+		}
+	}
+	if _, err := dr.Next(1); err == nil {
+		c.Fail("FRAME_LEN", "Decode/DefaultReader", sim.F{"which": "trailing", "pipeline": true}, "bytes remain on the connection after the last frame")
+	}
+	dr.Release(nil)
+}
+
 func runC06(c *sim.Ctx) {
 	cfg := c.Cfg
 	c.SetupAlloc(allocCfg(cfg, false))
 	st := c.Tape.S("ops")
+	if cfg.Chance(1, 4) {
+		c06Pipeline(c, cfg, st)
+		mcache.SimCheckPoison()
+		return
+	}
 	n := 1 + cfg.Choose(3)
 	ctx := context.Background()
 	for k := 0; k < n; k++ {
